@@ -1,11 +1,26 @@
 import TruthModel.Props.C03
+import TruthModel.Lemmas.RoundTrip
 /-
 C01 — decompile then recompile reproduces the binary bit-for-bit.
 
 The property composes several layers (argument codec: C12, time labels: C13, difficulty
-masks: C14, label offsets: C18, block recovery: C06/C07, text: C08).  This file holds the
-composition at the level of script bytes: every script a compile can emit (the image of the
-writer) is read back to an instruction list whose re-encoding is the very same bytes.
+masks: C14, label offsets: C18, block recovery: C06/C07, text: C08).  This file holds
+* the composition at the level of script bytes: every script a compile can emit (the image of the
+  writer) is read back to an instruction list whose re-encoding is the very same bytes
+  (`reread_rewrite`, `emitted_bytes_determine_script`; C03);
+* the composition at the level of instruction lists, for the flat decompile path (blocks, intrinsics,
+  call sugar and difficulty switches off, with or without `--no-arguments`) and the flat compile
+  path, models in `Model/RoundTrip.lean`:
+    `lower_raise_flat`          lowerFlat (raiseFlat is) = is for canonical scripts whose jumps hit boundaries
+    `lower_raise_flat_no_warning`, `blob_roundtrip`
+    `canonical_of_compiled`     what `compile` writes for a call is canonical (all encodings; C12 decode_encode)
+    `canonical_of_fixed_width`  canonical = "decodes without warning, zero padding, register bits on
+                                register-capable parameters" for signatures without strings/arg0 (C12 encode_decode_partial)
+    `noncanonical_warns`        a non-canonical fixed-width instruction is warned about, or in one of two named silent classes
+    `raiseFlat_warns` (Lemmas)  an instruction's warnings are warnings of the script
+    `silent_*`, `blob_not_dwords_does_not_recompile`   the silent classes, as witnesses (open findings).
+Not proved here: intrinsic sugar, block recovery + desugaring (C06/C07), the text layer (C08),
+file containers (C03/C20) — those are searched end to end by the harness.
 -/
 namespace TruthModel.C01
 open TruthModel TruthModel.InstrIO TruthModel.C03
@@ -35,4 +50,462 @@ example : ∃ bs, writeInstrs .anm07 [{ time := 10, opcode := 3, mask := 1, blob
    (arguments), C13 (times), C14 (difficulty masks), C18 (offsets), C06/C07 (blocks), C08 (text);
    the end-to-end statement is checked on the implementation by the search of this property. -/
 
+
+/-! ## the flat round trip: `lowerFlat (raiseFlat is) = is` -/
+
+open TruthModel.Abi TruthModel.Offsets TruthModel.C18 TruthModel.RoundTrip
+set_option linter.unusedSimpArgs false
+set_option linter.unusedVariables false
+
+theorem zip_items (items : List Item) : (items.map (·.1)).zip (items.map (·.2.1)) = items.map fun x => (x.1, x.2.1) := by
+  induction items with
+  | nil => rfl
+  | cons x xs ih => simp [ih]
+
+theorem raiseFlat_of (L : Lang) (a : Bool) (is : List RawInstr) (es : List Early) (cs : List FCall) (ss : List FlatStmt)
+    (hdec : decodeAll L a 0 is = .ok (es, []))
+    (hnobad : hasBadJump (es.map (Early.toR L.mode (boundaries L.hdr is))) = false)
+    (hcalls : raiseCalls L (boundaries L.hdr is) (es.map (Early.toR L.mode (boundaries L.hdr is))) es = .ok (cs, []))
+    (hem : emitFrom L (boundaries L.hdr is) (es.map (Early.toR L.mode (boundaries L.hdr is))) 0 0 (is.zip cs) = .ok ss) :
+    raiseFlat L a is = .ok (ss, unknownWarn L a is) := by
+  simp only [raiseFlat, hdec, hnobad, Bool.false_eq_true, if_false, hcalls, hem]
+  simp
+
+theorem lowerFlat_of (L : Lang) (ss : List FlatStmt) (code : List LStmt) (ovr : List Ovr) (out : Lowered) (is : List RawInstr)
+    (c1 : (if L.diffAllowed = true then firstErr (diffCheck L) ss else .ok ()) = .ok ())
+    (c2 : firstErr (typeCheck L) ss = .ok ()) (c3 : firstErr (constCheck L) ss = .ok ())
+    (c4 : (if L.diffAllowed = true then (.ok () : Outcome Unit) else firstErr forbidDiff ss) = .ok ())
+    (c5 : firstErr blobCheck ss = .ok ())
+    (hb : build L 0 ss = (code, ovr)) (hlt : lowerTail L.hdr L.hasRegs L.mode code = .ok out) (hp : patch ovr out.instrs = is) :
+    lowerFlat L ss = .ok is := by
+  simp only [lowerFlat, c1, c2, c3, c4, c5, seqU, hb, hlt, hp]
+
+/-- **Decompile then recompile reproduces the instructions** (flat path: blocks, intrinsics,
+call sugar and difficulty switches off; with or without `--no-arguments`).
+
+For every language (header size > 0, any label mode, any signature table, with or without
+registers / difficulty support, any flag table satisfying the invariant of C14), every script in
+which every opcode that has a signature has a valid one (`InstrAbi::validate`), every instruction is
+`Canonical` and every jump offset is an instruction boundary of the script or its end:
+`raiseFlat` succeeds, its only possible warning is the unknown-signature one, and `lowerFlat` of the
+emitted statements is the very same instruction list — times (incl. negative, decreasing,
+wrapping), difficulty masks (all 256), argument bytes, parameter masks, `arg0` fields, jumps to
+every boundary (shared labels, `r` labels, the start label, the end label) in every label mode.
+Uses C12 (`argsWF` of decoded values), C13 (`emitLabels_spec`, `labelFor_time`, `label_names`),
+C14 (`label_parse`) and C18 (`dummy_same_size`). -/
+theorem lower_raise_flat (L : Lang) (arguments : Bool) (is : List RawInstr)
+    (hhdr : 0 < L.hdr) (hinv : C14.Inv L.defs)
+    (hvalid : ∀ i ∈ is, ∀ abi, effSig L arguments i.opcode = some abi → validAbi abi = true)
+    (hcanon : Canonical L arguments is = true)
+    (hjumps : JumpsOnBoundaries L arguments is = true) :
+    ∃ ss, raiseFlat L arguments is = .ok (ss, unknownWarn L arguments is) ∧ lowerFlat L ss = .ok is := by
+  have hnd := boundaries_nodup L.hdr hhdr is
+  have hdec := canon_decodeAll L arguments is none 0 hcanon
+  have hofflen := boundaries_length L.hdr is
+  -- jumps
+  have hall : ∀ e ∈ earlies L arguments 0 is, ∀ kd tm, e.jump L.mode (boundaries L.hdr is) = some (kd, tm) → kd < (boundaries L.hdr is).length := by
+    intro e he kd tm hj
+    simp only [JumpsOnBoundaries, hdec, List.all_eq_true] at hjumps
+    have := hjumps e he
+    simp only [hj, decide_eq_true_eq] at this
+    exact this
+  let offs := boundaries L.hdr is
+  let es := earlies L arguments 0 is
+  let ris := es.map (Early.toR L.mode offs)
+  let tbl := tblFrom offs ris 0 (is.length + 1)
+  have hjok : ∀ e ∈ es, JumpOk L offs ris tbl e := by
+    intro e he kd tm hj
+    have hk := hall e he kd tm hj
+    have hr : Early.toR L.mode offs e ∈ ris := List.mem_map_of_mem he
+    obtain ⟨l, hl⟩ := labelFor_of_jump ris _ hr kd tm (by simp [Early.toR, hj])
+    refine ⟨hk, l, hl, ?_⟩
+    exact lookup_tblFrom offs hnd ris (is.length + 1) 0 kd l (Nat.zero_le _) (by rw [hofflen] at hk; omega) (by rw [hofflen]; omega) hl
+  obtain ⟨items, hi1, hi2, hi3, hi4, hi5⟩ := items_of_canon L arguments offs ris tbl hinv is none 0 hcanon hvalid hjok
+  -- decompile
+  have htimes : ris.map (·.time) = items.map (fun x => Int32.ofInt x.1.time) := by
+    have h1 := earlies_raw L arguments is 0
+    have : ris.map (·.time) = (es.map (·.raw)).map (fun i => Int32.ofInt i.time) := by
+      simp [ris, Early.toR, List.map_map, Function.comp_def]
+    rw [this, h1, ← hi1, List.map_map]; rfl
+  obtain ⟨ss, hem, hbuild, hfirst⟩ := emit_build L offs ris items [] ris rfl htimes hi4
+  have hnobad : hasBadJump ris = false := by
+    simp only [hasBadJump]
+    rw [List.any_eq_false]
+    intro r hr
+    simp only [ris, List.mem_map] at hr
+    obtain ⟨e, he, rfl⟩ := hr
+    cases hj : e.jump L.mode offs with
+    | none => simp [Early.toR, hj]
+    | some p =>
+      obtain ⟨kd, tm⟩ := p
+      have hk := hall e he kd tm hj
+      have hlen : ris.length = is.length := by simp [ris, es, earlies_length]
+      rw [hofflen] at hk
+      simp [Early.toR, hj, hlen]; omega
+  refine ⟨ss, ?_, ?_⟩
+  · have hz : is.zip (items.map (·.2.1)) = items.map fun x => (x.1, x.2.1) := by rw [← hi1]; exact zip_items items
+    simp only [lastTime, List.getLast?_nil, List.length_nil] at hem
+    rw [← hz] at hem
+    exact raiseFlat_of L arguments is es (items.map (·.2.1)) ss hdec hnobad hi3 hem
+  · -- compile
+    simp only [lastTime, List.getLast?_nil, List.length_nil] at hbuild
+    have hdrop : offs.drop 0 = offsetsFrom 0 (items.map (fun x => instrSize L.hdr x.1) ++ [0]) := by
+      simp only [List.drop_zero, offs, boundaries]
+      rw [← hi1, List.map_map]; rfl
+    obtain ⟨g, code', raws, hg, hlab, henc, hsec, hpatch⟩ := passes L offs hnd ris tbl items 0 0 none [] hdrop (by intro j l _ _ _; simp) hi2
+    have hlt : lowerTail L.hdr L.hasRegs L.mode (codeFrom L offs ris 0 items) = .ok ⟨raws, g⟩ := by
+      have hlab' : g.labels = tbl := by rw [hlab]; simp only [tbl]; rw [← hi1]; simp
+      simp only [lowerTail, gatherLabelInfo, hg, encodeLabels, hlab', henc, hsec]
+    have c1 : (if L.diffAllowed = true then firstErr (diffCheck L) ss else .ok ()) = .ok () := by
+      by_cases hd : L.diffAllowed = true
+      · rw [if_pos hd]; exact hfirst _ (fun x hx => (hi5 x hx).1 hd)
+      · rw [if_neg hd]
+    have c2 := hfirst (typeCheck L) (fun x hx => (hi5 x hx).2.1)
+    have c3 := hfirst (constCheck L) (fun x hx => (hi5 x hx).2.2.1)
+    have c4 : (if L.diffAllowed = true then (.ok () : Outcome Unit) else firstErr forbidDiff ss) = .ok () := by
+      by_cases hd : L.diffAllowed = true
+      · rw [if_pos hd]
+      · rw [if_neg hd]; exact hfirst _ (fun x hx => (hi5 x hx).2.2.2.1 (by simpa using hd))
+    have c5 := hfirst blobCheck (fun x hx => (hi5 x hx).2.2.2.2)
+    exact lowerFlat_of L ss _ _ ⟨raws, g⟩ is c1 c2 c3 c4 c5 hbuild hlt (by rw [← hi1]; exact hpatch)
+/-- with a signature for every opcode (or under `--no-arguments`) the decompile prints no warning at all -/
+theorem lower_raise_flat_no_warning (L : Lang) (arguments : Bool) (is : List RawInstr)
+    (hhdr : 0 < L.hdr) (hinv : C14.Inv L.defs)
+    (hvalid : ∀ i ∈ is, ∀ abi, effSig L arguments i.opcode = some abi → validAbi abi = true)
+    (hknown : arguments = false ∨ ∀ i ∈ is, (L.sig i.opcode).isSome = true)
+    (hcanon : Canonical L arguments is = true) (hjumps : JumpsOnBoundaries L arguments is = true) :
+    ∃ ss, raiseFlat L arguments is = .ok (ss, []) ∧ lowerFlat L ss = .ok is := by
+  obtain ⟨ss, h1, h2⟩ := lower_raise_flat L arguments is hhdr hinv hvalid hcanon hjumps
+  have : unknownWarn L arguments is = [] := by
+    rcases hknown with h | h
+    · simp [unknownWarn, h]
+    · have : (is.any fun i => (L.sig i.opcode).isNone) = false := by
+        rw [List.any_eq_false]; intro i hi
+        have := h i hi
+        cases hs : L.sig i.opcode <;> simp_all
+      simp [unknownWarn, this]
+  rw [this] at h1
+  exact ⟨ss, h1, h2⟩
+
+/-! ## the blob fallback -/
+
+theorem earlies_blob (L : Lang) : ∀ (is : List RawInstr) (off : Nat), ∀ e ∈ earlies L false off is, e.dec = none := by
+  intro is
+  induction is with
+  | nil => intro off e he; cases he
+  | cons i rest ih =>
+    intro off e he
+    simp only [earlies, List.mem_cons] at he
+    rcases he with he | he
+    · subst he; simp [earlyOf, effSig]
+    · exact ih _ e he
+
+/-- **`--no-arguments`**: every script whose instructions are whole numbers of dwords (and whose
+header fields have the widths of `RawInstr`) decompiles to `@blob` calls (with `@mask` / `@arg0`
+where they are not the defaults), without warning, and compiles back to the same instructions —
+whatever the signature table says, valid or not. -/
+theorem blob_roundtrip (L : Lang) (is : List RawInstr) (hhdr : 0 < L.hdr) (hinv : C14.Inv L.defs)
+    (h : ∀ i ∈ is, wfInstr L i = true ∧ i.blob.length % 4 = 0) :
+    ∃ ss, raiseFlat L false is = .ok (ss, []) ∧ lowerFlat L ss = .ok is := by
+  have hcanon : ∀ (is : List RawInstr) (st : EncState), (∀ i ∈ is, wfInstr L i = true ∧ i.blob.length % 4 = 0) → canonFrom L false st is = true := by
+    intro is
+    induction is with
+    | nil => intro st _; rfl
+    | cons i rest ih =>
+      intro st h
+      obtain ⟨h1, h2⟩ := h i List.mem_cons_self
+      have : canonInstr L false st i = some st := by simp [canonInstr, h1, effSig, h2]
+      simp only [canonFrom, this]
+      exact ih st (fun j hj => h j (List.mem_cons_of_mem _ hj))
+  have hc : Canonical L false is = true := hcanon is none h
+  have hj : JumpsOnBoundaries L false is = true := by
+    simp only [JumpsOnBoundaries, canon_decodeAll L false is none 0 hc, List.all_eq_true]
+    intro e he
+    simp [Early.jump, earlies_blob L is 0 e he]
+  exact lower_raise_flat_no_warning L false is hhdr hinv (by intro i _ abi hs; simp [effSig] at hs) (.inl rfl) hc hj
+
+/-! ## what the compiler writes is canonical (C12 `decode_encode`) -/
+
+theorem decodeInstr_of_decodeArgs (abi : Abi) (i : RawInstr) (full : List Arg) (w : List String)
+    (h : decodeArgs abi ⟨i.blob, i.mask, i.extra⟩ = .ok (full, w)) : ∃ a0, decodeInstr abi i = .ok ((full, a0), w) := by
+  simp only [decodeArgs] at h
+  simp only [decodeInstr]
+  cases hd : decLoop abi i.blob i.mask i.extra with
+  | ok o =>
+    rw [hd] at h; simp only [Outcome.ok.injEq, Prod.mk.injEq] at h
+    exact ⟨o.arg0, by simp [← h.1, ← h.2, leftoverMsg, unusedMaskMsg]⟩
+  | err c => rw [hd] at h; cases h
+  | panic p => rw [hd] at h; cases h
+
+theorem encodeArgs_arg0_none (hasRegs : Bool) (st : EncState) (abi : Abi) (args : List Arg) (raw : Raw) (w : List String) (st' : EncState)
+    (hh : headIsArg0 abi = false) (h : encodeArgs hasRegs st abi args = .ok (raw, w, st')) : raw.arg0 = none := by
+  unfold encodeArgs at h
+  split at h
+  · cases h
+  · cases abi with
+    | nil =>
+      simp only [encodePlain] at h
+      cases hl : encLoop 0 [] args st with
+      | ok o => rw [hl] at h; simp only [Outcome.ok.injEq, Prod.mk.injEq] at h; rw [← h.1]
+      | err c => rw [hl] at h; cases h
+      | panic p => rw [hl] at h; cases h
+    | cons e es =>
+      simp only [headIsArg0] at hh
+      simp only [hh, Bool.false_eq_true, if_false, encodePlain] at h
+      cases hl : encLoop 0 (e :: es) args st with
+      | ok o => rw [hl] at h; simp only [Outcome.ok.injEq, Prod.mk.injEq] at h; rw [← h.1]
+      | err c => rw [hl] at h; cases h
+      | panic p => rw [hl] at h; cases h
+
+/-- **Everything `compile` writes for a call is canonical** — strings of every size kind, masks,
+the furigana quirk and `arg0` included: for every valid signature with at most 16 parameters and
+every `ArgsOk` argument list, the instruction `compileCall` produces (call checks, then
+`encode_args`) satisfies `canonInstr`, and leaves the furigana state the encoder left. -/
+theorem canonical_of_compiled (L : Lang) (st st' : EncState) (abi : Abi) (args : List Arg) (raw : Raw) (w : List String) (i : RawInstr)
+    (hsig : L.sig i.opcode = some abi) (hv : validAbi abi = true) (hn : (abi.filter Enc.contributes).length ≤ 16)
+    (ha : ArgsOk st abi args = true) (hfr : floatRegsOk L args = true)
+    (hc : compileCall L.hasRegs st abi args = .ok (raw, w, st'))
+    (hi : i.blob = raw.blob ∧ i.mask = raw.mask ∧ i.extra = raw.arg0) (hwf : wfInstr L i = true) :
+    canonInstr L true st i = some st' := by
+  simp only [compileCall] at hc
+  cases hcc : checkCall abi args with
+  | ok u =>
+    rw [hcc] at hc; simp only at hc
+    obtain ⟨hde, hw⟩ := C12.decode_encode L.hasRegs st abi args raw w st' hv hn ha hc
+    have hraw : raw = ⟨i.blob, i.mask, i.extra⟩ := by cases raw; simp_all
+    rw [hraw] at hde
+    simp only [decompileCall] at hde
+    cases hda : decodeArgs abi ⟨i.blob, i.mask, i.extra⟩ with
+    | ok r =>
+      obtain ⟨full, wd⟩ := r
+      rw [hda] at hde; simp only [Outcome.ok.injEq, Prod.mk.injEq] at hde
+      obtain ⟨hdrop, hwd⟩ := hde
+      have hwd0 : wd = [] := by cases wd <;> simp_all
+      have hnz : nonzeroPadding abi full = false := by
+        cases hz : nonzeroPadding abi full with
+        | false => rfl
+        | true => rw [hz, hwd0] at hwd; simp at hwd
+      subst hwd0
+      obtain ⟨a0, hdi⟩ := decodeInstr_of_decodeArgs abi i full [] hda
+      have ha0 : arg0After (pseudoArg0 a0) raw.arg0 = i.extra := by
+        by_cases hh : headIsArg0 abi = true
+        · rw [decodeInstr_arg0 abi i full a0 [] hv hh hdi]; simp [pseudoArg0, arg0After, hi.2.2]
+        · have hh' : headIsArg0 abi = false := by simpa using hh
+          have hr0 := encodeArgs_arg0_none L.hasRegs st abi args raw w st' hh' hc
+          have hall : ∀ e ∈ abi, e.isArg0 = false := by
+            intro e he
+            cases abi with
+            | nil => cases he
+            | cons e0 es =>
+              have ht := validAbi_arg0_tail (e0 :: es) hv
+              simp only [List.drop_one, List.tail_cons] at ht
+              simp only [List.mem_cons] at he
+              rcases he with he | he
+              · subst he; simpa [headIsArg0] using hh'
+              · exact ht e he
+          have : a0 = i.extra := by
+            simp only [decodeInstr] at hdi
+            cases hd : decLoop abi i.blob i.mask i.extra with
+            | ok o =>
+              rw [hd] at hdi; simp only [Outcome.ok.injEq, Prod.mk.injEq] at hdi
+              rw [← hdi.1.2]; exact decLoop_arg0_passthrough abi hall _ _ _ _ hd
+            | err c => rw [hd] at hdi; cases hdi
+            | panic p => rw [hd] at hdi; cases hdi
+          rw [this, hi.2.2, hr0]; simp [pseudoArg0, arg0After]
+      simp only [canonInstr, hwf, Bool.not_true, Bool.false_eq_true, if_false, effSig, if_true, hsig, hdi, hnz, hdrop, hfr, hcc, hc]
+      simp [hi.1, hi.2.1, ha0]
+    | err c => rw [hda] at hde; cases hde
+    | panic p => rw [hda] at hde; cases hde
+  | err c => rw [hcc] at hc; cases hc
+  | panic p => rw [hcc] at hc; cases hc
+/-! ## `Canonical`, syntactically, and the warnings -/
+
+/-- **canonical, syntactically, for fixed-width signatures** (C12 `encode_decode_partial`): an
+instruction of a signature without string and `arg0` parameters is canonical as soon as it decodes
+without warning (no leftover bytes, no unused mask bits), its padding bytes are zero, its register
+bits sit only on register-capable parameters and its float-stored register numbers survive -/
+theorem canonical_of_fixed_width (L : Lang) (st : EncState) (abi : Abi) (i : RawInstr) (full : List Arg) (a0 : Option Int)
+    (hsig : L.sig i.opcode = some abi) (hsf : strFree abi = true) (hna : noArg0 abi = true)
+    (hn : (abi.filter Enc.contributes).length ≤ 16) (hregs : L.hasRegs = true)
+    (hwf : wfInstr L i = true) (hx : i.extra = none)
+    (hdec : decodeInstr abi i = .ok ((full, a0), [])) (hpad : nonzeroPadding abi full = false)
+    (hm : maskOk abi i.mask = true) (hfr : floatRegsOk L (dropPadding abi full) = true) :
+    canonInstr L true st i = some st := by
+  have hdec' := decodeInstr_decodeArgs abi i full a0 [] hdec
+  have hm16 : i.mask < 65536 := by
+    simp only [wfInstr, Bool.and_eq_true, decide_eq_true_eq] at hwf; exact hwf.1.1.2
+  have henc := C12.encode_decode_partial st abi ⟨i.blob, i.mask, i.extra⟩ full hsf hna hn hdec' hpad hm hm16 hx
+  have ha0 : a0 = none := by rw [decodeInstr_arg0_passthrough abi i full a0 [] hna hdec, hx]
+  have hcc := checkCall_of_wf abi full (decodeInstr_wf abi i full a0 [] hdec) hna
+  simp only [canonInstr, hwf, Bool.not_true, Bool.false_eq_true, if_false, effSig, if_true, hsig, hdec, hpad, hfr, hcc, hregs, henc]
+  simp [ha0, pseudoArg0, arg0After, hx]
+
+/-- **the only permitted exception, and where it is not honoured.**  A non-canonical instruction of a
+fixed-width signature that decodes at all is one the decompiler warns about (a decode warning:
+leftover bytes / unused mask bits, or the non-zero padding warning) — or it belongs to one of two
+classes that are lost *silently*: a register bit on an immediate-only parameter (`maskOk` fails;
+"TODO: Add a way to fallback to @mask for bad mask bits" in `decode_args_with_abi`), or a
+float-stored register number that `x as i32` / `reg as f32` do not reproduce. -/
+theorem noncanonical_warns (L : Lang) (st : EncState) (abi : Abi) (i : RawInstr) (full : List Arg) (a0 : Option Int) (w : List String)
+    (hsig : L.sig i.opcode = some abi) (hsf : strFree abi = true) (hna : noArg0 abi = true)
+    (hn : (abi.filter Enc.contributes).length ≤ 16) (hregs : L.hasRegs = true)
+    (hwf : wfInstr L i = true) (hx : i.extra = none)
+    (hdec : decodeInstr abi i = .ok ((full, a0), w))
+    (hnc : canonInstr L true st i = none) :
+    w ≠ [] ∨ nonzeroPadding abi full = true ∨ maskOk abi i.mask = false ∨ floatRegsOk L (dropPadding abi full) = false := by
+  by_cases hw : w = []
+  · subst hw
+    by_cases hpad : nonzeroPadding abi full = true
+    · exact .inr (.inl hpad)
+    · by_cases hm : maskOk abi i.mask = true
+      · by_cases hfr : floatRegsOk L (dropPadding abi full) = true
+        · have := canonical_of_fixed_width L st abi i full a0 hsig hsf hna hn hregs hwf hx hdec (by simpa using hpad) hm hfr
+          rw [this] at hnc; cases hnc
+        · exact .inr (.inr (.inr (by simpa using hfr)))
+      · exact .inr (.inr (.inl (by simpa using hm)))
+  · exact .inl hw
+/-- a decode warning or non-zero padding of any instruction is a warning of the decompiled script -/
+theorem raiseFlat_warns (L : Lang) (is : List RawInstr) (ss : List FlatStmt) (ws : List String)
+    (h : raiseFlat L true is = .ok (ss, ws)) (i : RawInstr) (hi : i ∈ is) (abi : Abi) (hsig : L.sig i.opcode = some abi)
+    (full : List Arg) (a0 : Option Int) (w : List String) (hdec : decodeInstr abi i = .ok ((full, a0), w))
+    (hw : w ≠ [] ∨ nonzeroPadding abi full = true) : ws ≠ [] := by
+  simp only [raiseFlat] at h
+  cases hd : decodeAll L true 0 is with
+  | ok r =>
+    obtain ⟨es, w1⟩ := r
+    rw [hd] at h; simp only at h
+    split at h
+    · cases h
+    · cases hc : raiseCalls L (boundaries L.hdr is) (es.map (Early.toR L.mode (boundaries L.hdr is))) es with
+      | ok r2 =>
+        obtain ⟨cs, w2⟩ := r2
+        rw [hc] at h; simp only at h
+        cases hem : emitFrom L (boundaries L.hdr is) (es.map (Early.toR L.mode (boundaries L.hdr is))) 0 0 (is.zip cs) with
+        | ok ss' =>
+          rw [hem] at h; simp only [Outcome.ok.injEq, Prod.mk.injEq] at h
+          obtain ⟨_, h2⟩ := h
+          obtain ⟨p1, e, he, _, hedec⟩ := decodeAll_warnings L true is 0 es w1 hd i hi abi full a0 w (by simp [effSig, hsig]) hdec
+          rcases hw with hw | hw
+          · cases w with
+            | nil => exact absurd rfl hw
+            | cons x xs =>
+              have : x ∈ w1 := p1 x List.mem_cons_self
+              intro hws; rw [hws] at h2
+              simp at h2
+              rw [h2.1] at this; cases this
+          · have := raiseCalls_warnings L _ _ es cs w2 hc e he abi full hedec hw
+            intro hws; rw [hws] at h2
+            simp at h2
+            rw [h2.2.1] at this; cases this
+        | err c => rw [hem] at h; cases h
+        | panic p => rw [hem] at h; cases h
+      | err c => rw [hc] at h; cases h
+      | panic p => rw [hc] at h; cases h
+  | err c => rw [hd] at h; cases h
+  | panic p => rw [hd] at h; cases h
+
+/-! ## witnesses and non-vacuity -/
+
+/-- a stand-in for IEEE single on the two values the witnesses need: `-0.0` and `+0.0` are both
+integer-valued and read as register 0, register 0 is written `+0.0` -/
+def demoFr : FloatReg where
+  toReg b := if b = 0x80000000 ∨ b = 0 then some 0 else none
+  ofReg _ := 0
+
+/-- a language with registers, difficulty labels and absolute label offsets (the `TestLanguage` header) -/
+def demoLang : Lang where
+  hdr := 4
+  mode := .absolute
+  sig op :=
+    if op = 1 then some [.int .w4 true false true]                 -- `S(imm)`
+    else if op = 2 then some [.float false]                        -- `f`
+    else if op = 3 then some [.str (.toBlobEnd 4) ⟨0, 0, 0⟩ false] -- `z(bs=4)`
+    else if op = 4 then some [.jumpOffset, .jumpTime]              -- `ot`
+    else if op = 5 then some [.int .w4 true false false, .padding false, .int .w2 true false false]  -- `S-s`
+    else none
+  hasRegs := true
+  diffAllowed := true
+  defs := Diff.defaultDefs
+  fr := demoFr
+
+/-- the hypotheses of `lower_raise_flat` on a script with a register argument, a backward jump to the
+script start that asks for the time after the first time increase (`label_0`), a jump that shares
+the label of the second instruction and uses its time (`timeof`), a jump to the end of the script,
+a negative time, and non-default difficulty masks -/
+def demoScript : List RawInstr := [
+  ⟨-1, 5, 1, [0x10, 0x27, 0, 0, 0, 0xFF, 0x7F], 255, none⟩,
+  ⟨10, 4, 0, [0, 0, 0, 0, 10, 0, 0, 0], 0x0F, none⟩,
+  ⟨10, 4, 0, [11, 0, 0, 0, 10, 0, 0, 0], 255, none⟩,
+  ⟨20, 4, 0, [47, 0, 0, 0, 20, 0, 0, 0], 0xF0, none⟩]
+
+example : 0 < demoLang.hdr ∧ Canonical demoLang true demoScript = true ∧ JumpsOnBoundaries demoLang true demoScript = true := by
+  decide
+
+/-- what the decompiler prints for it, and the way back -/
+example : raiseFlat demoLang true demoScript = .ok ([
+    .abs (-1),
+    .label "label_0",
+    .call { opcode := 5, args := [.reg 10000 false, .int 32767] },
+    .abs 0, .rel 10,
+    .label "label_11",
+    .call { diff := some ['0', '1', '2', '3'], opcode := 4, args := [.offsetof "label_0", .int 10] },
+    .call { opcode := 4, args := [.offsetof "label_11", .timeof "label_11"] },
+    .rel 10,
+    .call { diff := some ['4', '5', '6', '7'], opcode := 4, args := [.offsetof "label_47", .timeof "label_47"] },
+    .label "label_47"], []) := by
+  decide
+
+theorem demo_valid : ∀ i ∈ demoScript, ∀ abi, effSig demoLang true i.opcode = some abi → validAbi abi = true := by
+  intro i hi abi hs
+  simp only [demoScript, List.mem_cons, List.not_mem_nil, or_false] at hi
+  rcases hi with rfl | rfl | rfl | rfl <;> (simp [effSig, demoLang] at hs; subst hs; decide)
+
+example : ∃ ss, raiseFlat demoLang true demoScript = .ok (ss, []) ∧ lowerFlat demoLang ss = .ok demoScript :=
+  lower_raise_flat_no_warning demoLang true demoScript (by decide) C14.inv_default demo_valid (.inr (by decide)) (by decide) (by decide)
+
+/-- the hypotheses of `canonical_of_fixed_width` / `noncanonical_warns` are satisfiable -/
+example : decodeInstr [.int .w4 true false false, .padding false, .int .w2 true false false]
+      ⟨-1, 5, 1, [0x10, 0x27, 0, 0, 0, 0xFF, 0x7F], 255, none⟩ = .ok (([.int 10000 true, .int 0 false, .int 32767 false], none), []) ∧
+    maskOk [.int .w4 true false false, .padding false, .int .w2 true false false] 1 = true := by decide
+
+/-- the hypotheses of `blob_roundtrip` -/
+example : ∃ ss, raiseFlat demoLang false [⟨5, 9, 3, [1, 2, 3, 4], 0x0F, some 7⟩] = .ok (ss, []) ∧
+    lowerFlat demoLang ss = .ok [⟨5, 9, 3, [1, 2, 3, 4], 0x0F, some 7⟩] :=
+  blob_roundtrip demoLang _ (by decide) C14.inv_default (by decide)
+
+/-! ### losses the decompiler does not warn about (model witnesses; each replays on the real CLI) -/
+
+/-- a register bit on an immediate-only parameter is dropped without warning (`@mask` is not emitted) -/
+theorem silent_register_bit_on_immediate :
+    Canonical demoLang true [⟨0, 1, 1, [1, 0, 0, 0], 255, none⟩] = false ∧
+    raiseFlat demoLang true [⟨0, 1, 1, [1, 0, 0, 0], 255, none⟩] = .ok ([.call { opcode := 1, args := [.int 1] }], []) ∧
+    lowerFlat demoLang [.call { opcode := 1, args := [.int 1] }] = .ok [⟨0, 1, 0, [1, 0, 0, 0], 255, none⟩] := by
+  decide
+
+/-- a float-stored register number that `as i32` / `as f32` do not reproduce (`-0.0`) is normalised without warning -/
+theorem silent_float_register :
+    Canonical demoLang true [⟨0, 2, 1, [0, 0, 0, 0x80], 255, none⟩] = false ∧
+    raiseFlat demoLang true [⟨0, 2, 1, [0, 0, 0, 0x80], 255, none⟩] = .ok ([.call { opcode := 2, args := [.reg 0 true] }], []) ∧
+    lowerFlat demoLang [.call { opcode := 2, args := [.reg 0 true] }] = .ok [⟨0, 2, 1, [0, 0, 0, 0], 255, none⟩] := by
+  decide
+
+/-- a block-padded string with one block of padding too many is re-encoded shorter without warning -/
+theorem silent_overpadded_string :
+    Canonical demoLang true [⟨0, 3, 0, [0x61, 0, 0, 0, 0, 0, 0, 0], 255, none⟩] = false ∧
+    raiseFlat demoLang true [⟨0, 3, 0, [0x61, 0, 0, 0, 0, 0, 0, 0], 255, none⟩] = .ok ([.call { opcode := 3, args := [.str [0x61]] }], []) ∧
+    lowerFlat demoLang [.call { opcode := 3, args := [.str [0x61]] }] = .ok [⟨0, 3, 0, [0x61, 0, 0, 0], 255, none⟩] := by
+  decide
+
+/-- `--no-arguments` on an instruction whose arguments are not a whole number of dwords: no warning,
+and the printed `@blob` literal is rejected by the compiler (open finding) -/
+theorem blob_not_dwords_does_not_recompile :
+    raiseFlat demoLang false [⟨0, 1, 0, [1, 2], 255, none⟩] = .ok ([.call { opcode := 1, blob := some [1, 2] }], []) ∧
+    lowerFlat demoLang [.call { opcode := 1, blob := some [1, 2] }] = .err blobLenMsg := by
+  decide
+
+/-- `None` and `Some(0)` in the `arg0` field are the same bytes in every format: the one in-memory
+difference `Canonical` excludes is invisible in the written file -/
+theorem extra_zero_same_bytes (f : InstrIO.Fmt) (i : InstrIO.Instr) (h : i.extra = none) :
+    InstrIO.writeInstr f { i with extra := some 0 } = InstrIO.writeInstr f i := by
+  cases f <;> simp [InstrIO.writeInstr, InstrIO.fits, InstrIO.instrSize, h]
 end TruthModel.C01
